@@ -539,6 +539,12 @@ static EbErrorType encode_tu(EncodeContext *encode_context_ptr, int frames, uint
         //2. We do not push alt ref frame since the overlay frame will carry the pts.
         if (i != frames - 1 && !queue_entry_ptr->is_alt_ref)
             push_undisplayed_frame(encode_context_ptr, wrapper);
+        else if (i != frames - 1) {
+            // the alt ref's bytes now live in the temporal unit of its overlay frame: nobody else will
+            // hand this buffer to the application, so give it back here
+            EB_FREE(src_stream_ptr->p_buffer);
+            svt_release_object(wrapper);
+        }
     }
     if (frames > 1)
         sort_undisplayed_frame(encode_context_ptr);
